@@ -9,7 +9,10 @@ patch=$(cd "$(dirname "$patch")" && pwd)/$(basename "$patch")
 prop=$2; tier=${3:-quick}
 wt=/tmp/wt/run-$$-$prop
 mkdir -p /tmp/wt
-git -C /repo worktree add -q --detach $wt HEAD || exit 2
+# a change that a later fix neutralised is kept with the commit it was written for (meta.json "base_commit")
+base=HEAD
+[ -f "$(dirname $patch)/meta.json" ] && b=$(python3 -c "import json;print(json.load(open('$(dirname $patch)/meta.json')).get('base_commit',''))" 2>/dev/null) && [ -n "$b" ] && base=$b
+git -C /repo worktree add -q --detach $wt $base || exit 2
 if ! git -C $wt apply $patch; then echo "PATCH DOES NOT APPLY"; git -C /repo worktree remove --force $wt; exit 2; fi
 (cd $here && VERIF_REPO=$wt python3 tools/check.py $prop --tier $tier 2>&1 | tail -${SEEDCHECK_LINES:-4} | cut -c1-500)
 rc=$?
